@@ -931,9 +931,18 @@ def run(ctx):
         "importlib.import_module / getattr resolve inside flow.record.fieldtypes for whitelist entries (observed through a "
         "shadowed `importlib` in flow.record.base's namespace)",
         "the field-type WHITELIST itself is configuration: the property is relative to it",
-        "the AST-based facts (order of top-level statements of _generate_record_class, RecordField.__init__, fieldtype, "
-        "shape of the three untrusted routes) are read by tools/vf/factgen/c06.py; statement order is taken as dominance "
-        "(the functions have no early return before the checks)",
+        "generated facts are OBSERVED where they can be (tools/vf/factgen/c06.py runs the real functions on probes with exec, "
+        "is_valid_field_name, RecordField/RecordDescriptor.__init__, fieldtype, importlib, getattr, type and the compiled patterns "
+        "of flow.record.base replaced by logging stand-ins): is_valid_field_name as a decision table over (check_reserved, "
+        "reserved?, leading underscore?, pattern match?) on ~2600 names; which checks run on every declared field, with which "
+        "check_reserved, and that exec is never reached on definitions failing one check (every position, also after a "
+        "keyword-named field); the end-anchor behaviour of both patterns; fieldtype()'s decision and resolution attempts on "
+        "every whitelist entry / list form / list-of-list form / non-entries; every untrusted route constructs exactly one "
+        "RecordDescriptor from exactly the delivered definition; the constant text of the generated methods (recovered from the "
+        "exec'd source). From source only: which functions call exec/eval/compile/__import__ and _generate_record_class, and "
+        "that the loop validating field names (also one call level down) has no break/continue/return/else; recognisers of "
+        "fieldtype / routes / constants are cross-checks (contradiction -> fail closed, unrecognised spelling -> note in "
+        "gen/Gen_names.v)",
     ]
     ok = core.standard_proof_stage(ctx, ["props/C06.vo"], "C06", THEOREMS, search_fn=python_only_search, gens=["gen_names"])
     if not ok:
